@@ -18,7 +18,7 @@ CLAIMED = {
             "Proof: the tree invariant of run_a_star (every entry's edge joins parent to key vertex in search direction, labels strictly decrease towards the origin, the origin has no entry) is proved by induction over the loop for every instance, source, target and every schedule the priority queue may take; consequences: the backtracked route is a non-empty contiguous origin-to-destination walk with no repeated edge or vertex and backtracking never fails. Positivity of edge costs is proved from the cost model for every concrete configuration. The model is tied to the code by replaying the implementation's own pop sequence (hook) through the compiled model on random full-stack instances and comparing trees, routes, states and costs bit for bit; a direct oracle re-walks every route and tree.",
             "§4, §5 C01"),
     "C15": ("Lean 4 theorems by induction over the fold of the EdgeLoader row callback (insertion-ordered association lists per vertex) + differential run of the real Graph::from_files on CSV files written by the harness (plain and gzip) + direct oracle recomputing adjacency from the raw rows",
-            "Proof, partial: (a) for EVERY pair of edge/vertex files and every way of giving the counts, the model of graph_from_files either fails or yields a graph with exactly the listed edges (by id, with source, destination, length), vertices and coordinates and exactly the listed out-/in-edges of every vertex (Lean theorem loaded_topology_is_listed, by inversion of the loader's validation: undecodable row, endpoint outside the vertex table, edge or vertex id that is not its row number are load errors); (b) for files in the documented format the load succeeds, explicit and scanned counts give the same graph, out_edges/in_edges are the listed rows in file order at any degree, forward and reverse adjacency are permutations of the same edge ids, triplets and incident_* are the listed ones, per-edge tables are aligned by row (all inputs, no bound on sizes or degrees). Partial in three senses: (1) file decoding - csv parsing, gzip, line counting - is not modelled and is covered only by the differential run (the model takes the decoded rows, which rows fail to decode, and the text line count as data); (2) the adjacency container is modelled abstractly as an insertion-ordered association list (its refinement is C11's); (3) the edge_triplet clause of the full statement keeps one hypothesis - every endpoint has a vertex row - because the loader does not compare the number of vertex rows with the declared/scanned vertex count (machine-checked counterexample, listed known finding).",
+            "Proof: (a) for EVERY pair of edge/vertex files and every way of giving the counts, the model of graph_from_files either fails or yields a graph that exposes exactly the listed network - every listed edge by id with source, destination and length, every vertex with its coordinates, exactly the listed out-/in-edges of every vertex, the triplet of every edge (Lean theorem loaded_network_is_listed, no hypothesis, by inversion of the loader's validation: undecodable row, endpoint outside the vertex table or the vertex rows, edge or vertex id that is not its row number are load errors); (b) for files in the documented format the load succeeds, explicit and scanned counts give the same graph, out_edges/in_edges are the listed rows in file order at any degree, forward and reverse adjacency are permutations of the same edge ids, incident_* and triplets are the listed ones, per-edge tables are aligned by row (all inputs, no bound on sizes or degrees). Partial in two senses only: (1) file decoding - csv parsing, gzip, line counting - is not modelled and is covered only by the differential run (the model takes the decoded rows, which rows fail to decode, and the text line count as data); (2) the adjacency container is modelled abstractly as an insertion-ordered association list (its refinement is C11's).",
             "§5 C15"),
     "C07": ("Lean 4 theorems about the executable cost model for every cost-model value (any feature count, weights, nested rates, both aggregations, any state pair) over any linearly ordered field + bit-exact correspondence run of the real CostModel (built by CostModel::new over a real StateModel) against the model at IEEE doubles + direct oracle on the real outputs",
             "Proof: strict positivity of traversal_cost / access_cost and of EdgeTraversal::total_cost (= access + (total - access)), non-negativity of cost_estimate, exact return/none conditions, the sum formula (weights x rated state changes + per-edge / per-turn surcharges; floor exactly when <= 0), linearity in the weights, zero-weight features ignored (and removable under sum), the product formula under mul aggregation, and CostModel::new rejecting exactly zero-sum weights are Lean theorems for all inputs; the floor constant is regenerated from the source each run. The hand-written model is tied to the code by a bit-exact differential run over random configurations (every rate constructor, Combined nested to depth 3, both aggregations, zero/negative/absent weights, all delta signs, lookup hits and misses, short state vectors). f64 rounding is outside the theorems: the oracle reports the one place where it breaks the property (a large access share absorbs the floored total in access + (total - access)).",
